@@ -719,7 +719,7 @@ def run(ctx, model=True):
             c = new_case(rng, dt=dt, shape=(rng.randint(3, 4), rng.randint(3, 5)), kind=kind)
             c['chunks'] = gen_chunks(rng, len(c['data']), len(c['data'][0]), st)
             cases.append(c)
-    for _ in range(12 if ctx.quick() else 1500):
+    for _ in range(12 if ctx.quick() else 800):
         c = new_case(rng)
         rows_ = len(c['data'])
         c['chunks'] = gen_chunks(rng, rows_, len(c['data'][0]) if rows_ else 0, rng.choice(styles))
